@@ -200,8 +200,22 @@ func (i *interpreter) tryMerge(fr *frame, instr *ssa.If, c *sym.Term) (continuat
 	var ok bool
 	var resK continuation
 
+	savedEnv := make(map[ssa.Value]value, len(fr.env))
+	for k, v := range fr.env {
+		savedEnv[k] = v
+	}
+	resetEnv := func() {
+		// SSA registers are overwritten when a block is executed again (loops, phis): each arm
+		// must start from the registers as they were at the If.
+		env := make(map[ssa.Value]value, len(savedEnv)+8)
+		for k, v := range savedEnv {
+			env[k] = v
+		}
+		fr.env = env
+	}
 	restore := func() {
 		i.undoTo(mark)
+		resetEnv()
 		fr.block, fr.prevBlock = ifBlock, savedPrev
 		fr.stopAt, fr.stopped = savedStopAt, savedStopped
 		fr.result = nil
@@ -292,6 +306,7 @@ func (i *interpreter) tryMerge(fr *frame, instr *ssa.If, c *sym.Term) (continuat
 			ar.writes[e.addr] = *e.addr
 		}
 		i.undoTo(mark)
+		resetEnv()
 		i.specGuard = i.specGuard[:len(i.specGuard)-1]
 		fr.stopAt, fr.stopped = savedStopAt, savedStopped
 		return ar
